@@ -667,6 +667,15 @@ func (db *DB) Create(o Object, s Schema) (err error) {
 	defer db.Unlock()
 	var es *Schema
 
+	// the settings are the caller's, the state of the flushing routine is
+	// not: a Schema value used for several collections, or several times,
+	// must not make them share it
+	if s.AsyncWrites != nil {
+		a := *s.AsyncWrites
+		a.routineStarted = false
+		s.AsyncWrites = &a
+	}
+
 	es, err = db.schema(o)
 
 	switch {
